@@ -286,3 +286,54 @@ def ancestor_pattern_program(draw, cfg=DEFAULT_CFG, cache_rel='cache.gz'):
         root.insert(draw(st.integers(0, len(root))), ['q', draw(st.sampled_from(['exists', 'is_file', 'is_dir', 'list_dir'])),
                                                         draw(st.sampled_from([F, child, ''])), 'METADATA'])
     return {'root': root, 'funcs': funcs, 'universe': list(univ)}
+
+
+@st.composite
+def nested_failure_program(draw, cfg=DEFAULT_CFG, cache_rel='cache.gz'):
+    """Records *below a caught failure*: a cacheable parent P catches the failure of F, whose function had
+    successfully built Y (and possibly run a subbuild Z) before failing.  Later builds reuse P's record, which
+    contains F's raised record with Y's successful record nested inside."""
+    univ = cfg['universe']
+    masked = set(cache_ancestors(cache_rel))
+    qpaths = [p for p in univ if p not in masked] + ['']
+    cand = draw(st.lists(st.sampled_from(univ), min_size=3, max_size=8, unique=True))
+    outs = prefix_free(cand, masked | {cache_rel})
+    if len(outs) < 3:
+        # leaves of the universe are pairwise prefix-free
+        leaves = [u for u in univ if not any(v.startswith(u + '/') for v in univ) and u not in masked and u != cache_rel]
+        outs = prefix_free(outs + leaves, masked | {cache_rel})
+    cmp_ = st.sampled_from(cfg['cmp'])
+    query = st.tuples(st.just('q'), st.sampled_from(cfg['query_kinds']), st.sampled_from(qpaths), cmp_).map(list)
+
+    def some_queries(n):
+        return [draw(query) for _ in range(draw(st.integers(0, n)))]
+
+    p_kind = draw(st.sampled_from(['sub', 'sub', 'file']))
+    f_kind = draw(st.sampled_from(['file', 'file', 'sub']))
+    funcs = {'y': {'kind': 'file', 'body': some_queries(1) + [['write']]}}
+    f_body = some_queries(1) + [['bf', outs[0], 'y', [], draw(cmp_), True]]
+    if draw(st.booleans()):
+        funcs['z'] = {'kind': 'sub', 'body': some_queries(2)}
+        f_body.insert(draw(st.integers(0, len(f_body))), ['sb', 'z', [draw(st.integers(0, 2))], True])
+    fail = draw(st.sampled_from(['raise', 'raise', 'no_create', 'nonjson'] if f_kind == 'file' else ['raise', 'raise', 'nonjson']))
+    if f_kind == 'file' and fail != 'no_create':
+        f_body.insert(draw(st.integers(0, len(f_body))), ['write'])
+    f_body.append(['raise'] if fail == 'raise' else ['ret_nonjson'] if fail == 'nonjson' else ['q', 'exists', '', 'METADATA'])
+    funcs['f'] = {'kind': f_kind, 'body': f_body}
+    f_call = ['bf', outs[1], 'f', [], draw(cmp_), True] if f_kind == 'file' else ['sb', 'f', [], True]
+    p_body = some_queries(1) + [f_call] + some_queries(2)
+    if p_kind == 'file':
+        p_body.insert(draw(st.integers(0, len(p_body))), ['write'])
+    funcs['p'] = {'kind': p_kind, 'body': p_body}
+    p_call = ['bf', outs[2], 'p', [], draw(cmp_), True] if p_kind == 'file' else ['sb', 'p', [], True]
+    root = some_queries(1) + [p_call]
+    for _ in range(draw(st.integers(0, 2))):
+        root.append(draw(st.one_of(query, st.just(['probe']))))
+    if cfg.get('probe_w', 0) and not any(s[0] == 'probe' for s in root) and draw(st.booleans()):
+        root.append(['probe'])
+    return {'root': root, 'funcs': funcs, 'universe': list(univ)}
+
+
+def mixed_program(cfg, cache_rel, patterns=1, general=4):
+    """General programs with a share of the directed pattern families."""
+    return st.one_of(*([program(cfg, cache_rel)] * general + [nested_failure_program(cfg, cache_rel)] * patterns))
